@@ -432,6 +432,64 @@ def job_misc():
     return res
 
 
+def job_crosshair(timeout_per_condition=40):
+    """second engine (CrossHair 0.0.110, symbolic execution of Python with z3): contracts on the real check_groups / registry.
+    'Confirmed over all paths' is a discharge; a counterexample is replayed through the concrete oracle; anything else is inconclusive."""
+    import os, re, subprocess, sys
+    res = _new()
+    here = os.path.dirname(os.path.dirname(os.path.abspath(__file__)))
+    f = os.path.join(here, "xhair", "ch_check_groups.py")
+    env = dict(os.environ)
+    env.setdefault("SYMX_REPO", loader.REPO)
+    try:
+        p = subprocess.run([sys.executable, "-m", "crosshair", "check", "--report_all", "--per_condition_timeout", str(timeout_per_condition), f],
+                           capture_output=True, text=True, timeout=timeout_per_condition * 4 + 60, env=env, cwd="/")
+        out = p.stdout + p.stderr
+    except Exception as e:
+        out = f"crosshair could not run: {e}"
+    lines_src = open(f).read().split("\n")
+    names = {}
+    for i, l in enumerate(lines_src, 1):
+        if l.startswith("def groups_accept_iff_valid"):
+            names[i] = "check_groups([[a,b],[c]], d): accepted <=> in range and pairwise distinct; completed to a partition"
+        if l.startswith("def registry_accept_iff_listed"):
+            names[i] = "_str_to_gemini(name): accepted <=> name is a registry name"
+    seen_lines = set()
+    for line in out.splitlines():
+        m = re.search(r"ch_check_groups.py:(\d+): (\w+): (.*)", line)
+        if not m:
+            continue
+        ln, level, msg = int(m.group(1)), m.group(2), m.group(3)
+        key = max([k for k in names if k <= ln], default=None)
+        nm = names.get(key, f"line {ln}")
+        seen_lines.add(key)
+        if "Confirmed over all paths" in msg:
+            res["obligations"].append({"name": "crosshair/" + nm, "verdict": "unsat", "how": "crosshair: confirmed over all paths"})
+        elif level == "error" and "when calling" in msg:
+            o = {"name": "crosshair/" + nm, "verdict": "sat", "how": msg[:200]}
+            res["obligations"].append(o)
+            mm = re.search(r"groups_accept_iff_valid\(a\s*=\s*(-?\d+),\s*b\s*=\s*(-?\d+),\s*c\s*=\s*(-?\d+),\s*d\s*=\s*(-?\d+)\)", msg) or \
+                re.search(r"groups_accept_iff_valid\((-?\d+),\s*(-?\d+),\s*(-?\d+),\s*(-?\d+)\)", msg)
+            if mm:
+                a, b, c, d = map(int, mm.groups())
+                rep = {"kind": "groups", "d": d, "groups": [[a, b], [c]]}
+                if replay(rep):
+                    want = _groups_oracle(rep["groups"], d)
+                    res["violations"].append({"signature": f"{PROP}:check_groups:{'rejects-valid' if want else 'accepts-invalid'}", "what": f"CrossHair: check_groups({rep['groups']}, {d}) decided wrongly", "replay": rep})
+                else:
+                    o["verdict"] = "inconclusive"
+            else:
+                o["verdict"] = "inconclusive"
+        else:
+            res["obligations"].append({"name": "crosshair/" + nm, "verdict": "unknown", "how": msg[:200]})
+    for key, nm in names.items():
+        if key not in seen_lines:
+            res["obligations"].append({"name": "crosshair/" + nm, "verdict": "unknown", "how": "no verdict reported: " + out[-200:]})
+    res["paths"] = 2
+    res["samples"].append({"tool": "crosshair-tool 0.0.110", "output": out.splitlines()[-4:]})
+    return res
+
+
 def replay(rep, verbose=False):
     kind = rep["kind"]
     if kind == "groups":
@@ -491,6 +549,7 @@ def jobs(tier):
     out.append({"name": "epsilon", "target": "checks.c16:job_gemini_eps", "kwargs": {}, "timeout": 200})
     out.append({"name": "history", "target": "checks.c16:job_history", "kwargs": {}, "timeout": 280})
     out.append({"name": "misc", "target": "checks.c16:job_misc", "kwargs": {}, "timeout": 280})
+    out.append({"name": "crosshair", "target": "checks.c16:job_crosshair", "kwargs": dict(timeout_per_condition=40 if q else 120), "timeout": 400 if q else 900})
     for d, sizes in [(2, (1, 1)), (2, (2,)), (3, (2, 1)), (3, (1, 1, 1))] + ([] if q else [(3, (2, 2)), (3, (3,)), (4, (2, 1, 1)), (3, (1, 2, 1))]):
         out.append({"name": f"groups-symbolic/d{d}/{sizes}", "target": "checks.c16:job_groups_symbolic", "kwargs": dict(d=d, sizes=sizes), "timeout": 280 if q else 1800})
     for d in ([2, 3] if q else [2, 3, 4]):
